@@ -294,9 +294,10 @@ class Check(PropertyCheck):
         for i in range(n):
             rng = random.Random('%d/%d/%d' % (self.seed, seed_salt, i))
             size = 'small' if i % 5 == 0 else 'normal'
-            g = G.Gen(rng, size=size)
+            g = G.Gen(rng, size=size, simple=(i % 5 == 3))
             p = g.project()
             p['tag'] = 'gen-%d-%d' % (seed_salt, i)
+            p['simple'] = (i % 5 == 3)
             out.append(p)
         return out
 
@@ -383,6 +384,21 @@ class Check(PropertyCheck):
             if d is not None and len([v for v in out if v.kind == 'correspondence']) < 10:
                 out.append(Violation('correspondence', 'Model.Names and pydoctor disagree: ' + d[0], case=case,
                                      expected=d[1], observed=d[2]))
+            # how much of the observed stream lies inside the guard of the theorems
+            simple = is_simple(p)
+            if simple:
+                self.count('projects_in_whole_project_theorem_subset')
+            for q, mr, r in zip(p['queries'], mm[3], pr['results']):
+                if q[3] is None or len(mr) < 5:
+                    continue
+                g = bool(mr[4])
+                self.count('guard_true' if g else 'guard_false')
+                if simple:
+                    self.count('simple_guard_true' if g else 'simple_guard_false')
+                if simple and g and r[2] is not None and r[2][1] != cp_ident(q[3]) and len(out) < 50:
+                    out.append(Violation('correspondence', 'a name inside the guard of C04_expand_sound_project_partial resolves to '
+                                         'another object than CPython binds: the theorem, the model or the spec no longer describe '
+                                         'the code', case=dict(case, query=q), expected=cp_ident(q[3]), observed=r))
             d = self.diff_spec(p, at, mm)
             if d is not None and len([v for v in out if v.kind == 'spec']) < 5:
                 out.append(Violation('spec', 'SPEC VALIDATION: Spec.PyImport and CPython disagree (broken check, not a '
@@ -640,6 +656,32 @@ def self_model(chk: Check, wire: str) -> str:
     if b is None:
         raise RuntimeError(out)
     return lib.run_model(b, [wire])[0]
+
+
+def is_simple(p: dict) -> bool:
+    """Proofs/NamesInvProofs.v simple_project + no re-export: import statements of every form, defs, classes without base."""
+    def body(b: List[Any]) -> bool:
+        for s in b:
+            if s[0] in ('star', 'alias'):
+                return False
+            if s[0] == 'class' and (s[2] is not None or not body(s[3])):
+                return False
+        return True
+
+    def froms(b: List[Any]) -> List[str]:
+        out = []
+        for s in b:
+            if s[0] == 'from':
+                out += [a or o for o, a in s[3]]
+            elif s[0] == 'class':
+                out += froms(s[3])
+        return out
+    for m in p['modules']:
+        if not body(m['body']):
+            return False
+        if m.get('all') and set(m['all']) & set(froms(m['body'])):
+            return False
+    return True
 
 
 def strip(p: dict) -> dict:
